@@ -838,6 +838,14 @@ def visit(node):
     while stack:
         node = stack.pop()
 
+        # Expand a shared object or container only the first time. (Everything
+        # that gets visited is part of the tree, so its id stays valid.)
+        if isinstance(node, (list, tuple, dict, ParsedObject)):
+            node_id = id(node)
+            if node_id in visited:
+                continue
+            visited.add(node_id)
+
         if isinstance(node, (list, tuple)):
             stack.extend(reversed(node))
 
@@ -845,11 +853,6 @@ def visit(node):
             stack.extend(reversed(node.values()))
 
         elif isinstance(node, ParsedObject):
-            node_id = id(node)
-            if node_id in visited:
-                continue
-            visited.add(node_id)
-
             yield node
 
             if hasattr(node, '_fields'):
